@@ -176,7 +176,46 @@ func buildLayout(dir string, annotated bool, artAnnValue string) (ocispec.Descri
 	if err := store.Tag(ctx, tagged, "v1"); err != nil {
 		return ocispec.Descriptor{}, err
 	}
+	// a second artifact in the same layout (another tool may move the tag to it, see retag)
+	if _, err := oras.PackManifest(ctx, store, oras.PackManifestVersion1_1, "application/vnd.verif.artifact", oras.PackManifestOptions{
+		Layers: []ocispec.Descriptor{layer}, ManifestAnnotations: map[string]string{ocispec.AnnotationCreated: "2024-02-02T00:00:00Z", "which": "the other artifact"}}); err != nil {
+		return ocispec.Descriptor{}, err
+	}
 	return desc, nil
+}
+
+// retag: what another tool does to the layout between two signing calls - through a handle of its own it moves tag v1 to the
+// other artifact of the layout (keeping the tag's annotation).
+func retag(dir string, annotated bool, artAnnValue string) {
+	ctx := context.Background()
+	store, err := oci.New(dir)
+	must(err)
+	cur, err := store.Resolve(ctx, "v1")
+	must(err)
+	b, err := os.ReadFile(filepath.Join(dir, "index.json"))
+	must(err)
+	var idx ocispec.Index
+	must(json.Unmarshal(b, &idx))
+	for _, m := range idx.Manifests {
+		if m.Digest != cur.Digest && m.MediaType == cur.MediaType && m.ArtifactType == "application/vnd.verif.artifact" {
+			other := ocispec.Descriptor{MediaType: m.MediaType, Digest: m.Digest, Size: m.Size, ArtifactType: m.ArtifactType}
+			if annotated {
+				other.Annotations = map[string]string{artAnnKey: artAnnValue}
+			}
+			must(store.Tag(ctx, other, "v1"))
+			return
+		}
+	}
+	panic("harness: no other artifact to move the tag to")
+}
+
+// resolveOnDisk: what the layout on disk resolves a reference to, asked through a fresh handle that owes nothing to the library
+func resolveOnDisk(dir, ref string) (ocispec.Descriptor, error) {
+	store, err := oci.New(dir)
+	if err != nil {
+		return ocispec.Descriptor{}, err
+	}
+	return store.Resolve(context.Background(), ref)
 }
 
 func indexEntry(dir string, dg digest.Digest) string {
@@ -267,8 +306,11 @@ func runNotationSign() int {
 				ocispec.AnnotationCreated:                  "2001-01-01T00:00:00Z"}}
 		}
 
-		for _, call := range in.Calls {
-			if in.Art.Store == "ociReopen" {
+		for k, call := range in.Calls {
+			if in.Art.Store == "ociExternal" && k > 0 {
+				retag(dir, in.Art.Annotated, artAnnValue)
+			}
+			if in.Art.Store == "ociReopen" || in.Art.Store == "ociExternal" {
 				openDisk()
 			}
 			var repo registry.Repository
@@ -302,11 +344,16 @@ func runNotationSign() int {
 			case "colliding":
 				meta = map[string]string{artAnnKey: "43"}
 			case "reserved":
-				meta = map[string]string{"io.cncf.notary.evil": "x", "team": "alpha"}
+				// a key under the reserved prefix: below it, one of the library's own annotation keys, or the prefix itself
+				meta = map[string]string{[]string{"io.cncf.notary.evil", "io.cncf.notary.x509chain.thumbprint#S256", "io.cncf.notary"}[mix(*flagSeed, c.ID, "resv")%3]: "x", "team": "alpha"}
 			}
 			metaCopy := copyMap(meta)
 			pluginCfg := map[string]string{"k": "v"}
 			before, berr := repo.Resolve(ctx, resolveRef)
+			if mem == nil {
+				// the expectation comes from the layout as it is on disk, not from the handle under test
+				before, berr = resolveOnDisk(dir, resolveRef)
+			}
 			must(berr)
 			beforeCopy := copyDesc(before)
 			idxBefore := ""
@@ -373,6 +420,9 @@ func runNotationSign() int {
 			}
 			// frame: the repository's view of the artifact, the handed-out descriptor, the caller's maps
 			after, aerr := repo.Resolve(ctx, resolveRef)
+			if mem == nil {
+				after, aerr = resolveOnDisk(dir, resolveRef)
+			}
 			co.ArtSame = aerr == nil && descEqualFull(after, beforeCopy) && descEqualFull(before, beforeCopy)
 			if mem == nil && indexEntry(dir, artDesc.Digest) != idxBefore {
 				co.ArtSame = false
